@@ -330,6 +330,52 @@ def run(ctx):
             if state_write(ev) is not None:
                 chk.violation("R09.a", nxt, ev.node, "next_operation writes state", loc=ev.loc)
 
+    # R09.e for the environment: the only replacement of the action's machine
+    # component is the documented default `operation.machine_id`, the property
+    # that *raises* for an operation with several eligible machines; any other
+    # substitute (operation.machines[0], ...) accepts a request that is invalid
+    senv = repo.find_class("SingleJobShopGraphEnv")
+    sstep = senv.methods.get("step")
+    if sstep is not None:
+        F = ctx.norm.flat(sstep, depth=3)
+        dcalls = [n for n in own_nodes(F.node) if isinstance(n, ast.Call) and isinstance(n.func, ast.Attribute) and n.func.attr == "dispatch" and len(n.args) >= 2]
+        for dc in dcalls:
+            m = dc.args[1]
+            if not isinstance(m, ast.Name):
+                continue
+            # leaves of the definition closure of the machine argument
+            defs_ = ctx.flow.defs(F)
+            seen_n, work, leaves = set(), [m.id], []
+            while work:
+                nm = work.pop()
+                if nm in seen_n:
+                    continue
+                seen_n.add(nm)
+                for kind, value, stmt in defs_.of(nm):
+                    if value is None:
+                        continue
+                    if kind == "value" and isinstance(value, ast.Name):
+                        work.append(value.id)
+                    elif kind == "value" and isinstance(value, ast.IfExp):
+                        for br in (value.body, value.orelse):
+                            if isinstance(br, ast.Name):
+                                work.append(br.id)
+                            else:
+                                leaves.append((br, stmt))
+                    elif kind == "value":
+                        leaves.append((value, stmt))
+            for value, stmt in leaves:
+                vt = ast.unparse(value)
+                if isinstance(value, ast.Attribute) and value.attr == "machine_id":
+                    chk.ok("R09.e", sstep.qualname, F.loc(stmt), "the -1 sentinel is resolved by operation.machine_id (raises for flexible operations)")
+                elif ".machines" in vt:
+                    chk.violation(
+                        "R09.e", sstep, stmt,
+                        f"step replaces the machine of the request by `{vt[:60]}`: for an operation with several eligible machines the "
+                        "request `(job, -1)` names no machine and must be rejected (operation.machine_id raises), not silently "
+                        "resolved to one of them",
+                        loc=F.loc(stmt),
+                    )
     # ---------------------------------------------------------------- R09.c
     n_env = 0
     for cname in ("SingleJobShopGraphEnv", "MultiJobShopGraphEnv"):
